@@ -23,3 +23,22 @@ Proof. exact Gen_strings.gen_byte_zero_eq. Qed.
 Definition generated_library_equalities := (Gen_strings.gen_str_rchr_eq, Gen_strings.gen_str_start_eq, Gen_strings.gen_case_starts_eq,
   Gen_strings.gen_case_diffs_eq, Gen_strings.gen_scan_8long_eq, Gen_strings.gen_fmt_str_eq, Gen_strings.gen_fmt_str_len,
   Gen_strings.gen_fmt_uint_len, Gen_strings.gen_fmt_uint0_eq, Gen_numbers.gen_fmt_ulong_eq, Gen_numbers.gen_str_chr_eq).
+(* memory safety of the code as generated from today's sources with every array access checked (K_ modules): for ALL inputs
+   in the stated ranges the final v__oob is 0 - no read or write outside an array (Tie/Gen_safety.v) *)
+From NQ Require Tie.Gen_safety Base.Bytes.
+Lemma tie_safe_quote_doit : forall (src : Bytes.bytes) (out : list Z) (outlen alloc_ok : Z), bytes_ok src -> Z.of_nat (length src) < 2 ^ 30 ->
+  Z.of_nat (length out) < 2 ^ 32 -> 0 <= outlen ->
+  exists v st, K_quote_doit.run (S (length src)) out outlen (Z.of_nat (length out)) (zs src) (Z.of_nat (length src)) alloc_ok = Some (v, st) /\
+               K_quote_doit.v__oob st = 0.
+Proof. exact Gen_safety.safe_quote_doit. Qed.
+Lemma tie_safe_ip_scanbracket : forall (s : Bytes.bytes) (ip : list Z), bytes_ok s -> ~ In 0%N s -> length ip = 4%nat -> Z.of_nat (length s) < 2 ^ 31 ->
+  exists v st, K_ip_scanbracket.run (S (S (length s))) (zs s ++ [0]) 0 ip = Some (v, st) /\ K_ip_scanbracket.v__oob st = 0.
+Proof. exact Gen_safety.safe_ip_scanbracket. Qed.
+Lemma tie_safe_scan_ulong : forall (s : Bytes.bytes) (old : Z), bytes_ok s -> ~ In 0%N s -> Z.of_nat (length s) < 2 ^ 32 ->
+  exists v st, K_scan_ulong.run (S (length s)) (zs s ++ [0]) 0 [old] 0 = Some (v, st) /\ K_scan_ulong.v__oob st = 0.
+Proof. exact Gen_safety.safe_scan_ulong. Qed.
+Lemma tie_safe_fmt_ulong : forall (u : N) (buf : list Z), (u < 18446744073709551616)%N -> (20 <= length buf)%nat ->
+  exists v st, K_fmt_ulong.run 21 buf 0 (Z.of_N u) = Some (v, st) /\ K_fmt_ulong.v__oob st = 0.
+Proof. exact Gen_safety.safe_fmt_ulong. Qed.
+Definition generated_safety_theorems := (Gen_safety.safe_byte_chr, Gen_safety.safe_str_chr, Gen_safety.safe_case_diffb, Gen_safety.safe_cm_hash,
+  Gen_safety.safe_cdb_unpack, Gen_safety.safe_fmt_str, Gen_safety.safe_byte_copy).
